@@ -170,6 +170,15 @@ func checkNumberStars(out, value string) *finding {
 	return nil
 }
 
+// firstTwo returns the first two characters of a word.
+func firstTwo(w string) string {
+	rs := []rune(w)
+	if len(rs) > 2 {
+		rs = rs[:2]
+	}
+	return string(rs)
+}
+
 // visibleRuns splits a masked text into its maximal runs of bytes other than '*' and blank.
 func visibleRuns(out string) []string {
 	return strings.FieldsFunc(out, func(r rune) bool { return r == '*' || r == ' ' })
@@ -207,7 +216,7 @@ func checkName(out, value string) *finding {
 	if len(outWords) == len(words) {
 		for i, ow := range outWords {
 			for _, run := range visibleRuns(ow) {
-				if !strings.HasPrefix(words[i], run) {
+				if !strings.Contains(firstTwo(words[i]), run) {
 					return &finding{"other-than-first-two-shown", encoding(value), "only the beginning of a name word may appear"}
 				}
 			}
@@ -217,7 +226,7 @@ func checkName(out, value string) *finding {
 	for _, run := range visibleRuns(out) {
 		ok := false
 		for _, w := range words {
-			if strings.HasPrefix(w, run) {
+			if strings.Contains(firstTwo(w), run) {
 				ok = true
 			}
 		}
